@@ -2,6 +2,7 @@
 package main
 
 import (
+	"fmt"
 	"go/ast"
 	"go/token"
 	"sort"
@@ -353,6 +354,43 @@ func main() {
 			}
 			e.Bool("exportReportsPartial", reports, "Export: after the send loop a partial result (sResp.err != nil) ends the stream with a status error")
 		}
+		// ---- Export: the context handed to doSearch (the lazily read document stream lives under it) is the export context
+		if x, err := r.Load("proxyapi/grpc_export.go"); err != nil {
+			e.Missing("exportSearchCtx", err)
+		} else if fd := x.Func("grpcV1", "Export"); fd == nil {
+			e.Missing("exportSearchCtx", "Export not found")
+		} else {
+			var facts []string
+			ast.Inspect(fd.Body, func(n ast.Node) bool {
+				if as, ok := n.(*ast.AssignStmt); ok && len(as.Rhs) == 1 {
+					if call, ok := as.Rhs[0].(*ast.CallExpr); ok && strings.HasPrefix(x.Render(call.Fun), "context.") {
+						facts = append(facts, x.Render(as))
+					}
+				}
+				if call, ok := n.(*ast.CallExpr); ok && x.Render(call.Fun) == "g.doSearch" && len(call.Args) > 0 {
+					facts = append(facts, "g.doSearch("+x.Render(call.Args[0])+", ...)")
+				}
+				return true
+			})
+			e.Strs("exportSearchCtx", facts, "Export: every context it derives and the context it hands to doSearch, source order")
+		}
+		// ---- GetAPISearchRequest: Size and Offset reach the stores unchanged
+		if x, err := r.Load("proxy/search/search_request.go"); err != nil {
+			e.Missing("storeRequestFields", err)
+		} else if fd := x.Func("SearchRequest", "GetAPISearchRequest"); fd == nil {
+			e.Missing("storeRequestFields", "GetAPISearchRequest not found")
+		} else {
+			facts := []string{fmt.Sprintf("statements=%d", len(fd.Body.List))}
+			ast.Inspect(fd.Body, func(n ast.Node) bool {
+				if kv, ok := n.(*ast.KeyValueExpr); ok {
+					if k := x.Render(kv.Key); k == "Size" || k == "Offset" || k == "Order" {
+						facts = append(facts, k+": "+x.Render(kv.Value))
+					}
+				}
+				return true
+			})
+			e.Strs("storeRequestFields", facts, "GetAPISearchRequest: number of statements (a single return) and the Size / Offset / Order fields of the store request")
+		}
 		// ---- the recover interceptors: the deferred recover must be a closure that assigns the NAMED result `err`
 		if g, err := r.Load("network/grpcutil/interceptors.go"); err != nil {
 			e.Missing("recoverDefers", err)
@@ -413,5 +451,5 @@ func main() {
 			}
 			e.Strs("recoverDefers", shapes, "RecoverUnaryInterceptor / RecoverStreamInterceptor: shape of the deferred recover")
 		}
-	}, "network/grpcutil/interceptors.go", "proxyapi/grpc_v1.go", "proxyapi/grpc_export.go", "proxyapi/grpc_fetch.go", "pkg/storeapi/store_api.pb.go", "proxy/search/ingestor.go", "proxy/search/merged_docs_iterator.go")
+	}, "network/grpcutil/interceptors.go", "proxyapi/grpc_v1.go", "proxyapi/grpc_export.go", "proxyapi/grpc_fetch.go", "pkg/storeapi/store_api.pb.go", "proxy/search/ingestor.go", "proxy/search/merged_docs_iterator.go", "proxy/search/search_request.go")
 }
